@@ -89,7 +89,9 @@ func (rs1 ResourceScope) Compare(rs2 ResourceScope) int {
 func (rs ResourceScope) isKnown() bool {
 	switch rs.ResourceType {
 	case TypeRepository:
-		return parseKnownAction(rs.Action) != unknownAction
+		// Note: the empty repository name is used internally
+		// to represent CatalogScope, so it's never "known".
+		return rs.Resource != "" && parseKnownAction(rs.Action) != unknownAction
 	case TypeRegistry:
 		return rs == CatalogScope
 	}
@@ -358,7 +360,7 @@ func (s Scope) Holds(r ResourceScope) bool {
 		_, ok := slices.BinarySearch(s.repositories, "")
 		return ok
 	}
-	if r.ResourceType == TypeRepository {
+	if r.ResourceType == TypeRepository && r.Resource != "" {
 		if action := parseKnownAction(r.Action); action != unknownAction {
 			// It's a known action on a repository.
 			i, ok := slices.BinarySearch(s.repositories, r.Resource)
